@@ -101,6 +101,7 @@ CONSTANTS
   ValUnit = 12
   MaxBatch = 1
   FutureMax = 0
+  NaNVal = FALSE
   ValMode = "free"
   WithSync = FALSE
   Export = "states"
